@@ -12,7 +12,7 @@ import common
 import callshapes
 import progspace
 
-LEAN_TARGETS = ["CM.Props.C06", "CM.Props.Pipeline", "CM.Generated.PredsEq"]
+LEAN_TARGETS = ["CM.Props.C06", "CM.Props.Pipeline", "CM.Generated.PredsEq", "CM.Props.C16"]
 THEOREMS = [
     "CM.Location.C06_selected_complete",
     "CM.Location.C06_code_match_complete",
@@ -21,6 +21,8 @@ THEOREMS = [
     "CM.Pipeline.C05_plan_subset_selected",
     "CM.Pipeline.C03_write_iff_changeset",
     "CM.Generated.gen_match_location_eq",
+    "CM.Args.C18_replaceArgs_sets",
+    "CM.Args.C18_replaceArgs_not_flagged",
 ]
 RULE = (
     "for every rule-detected find-and-fix codemod with snippets: the snippets x context / layout variants and two-site files; the codemod's "
@@ -35,7 +37,10 @@ ASSUMPTIONS = [
 LEVEL_TEXT = (
     "Lean 4 theorems: a finding located exactly at a node (tool columns = libcst column + 1) selects it (C06_selected_complete, also for "
     "the matcher translated from the current source), a selected file is planned only if it is among the find-and-fix paths, a file "
-    "whose transformation raises is listed failed with its findings unfixed, and a written file always comes with a changeset. These are "
+    "whose transformation raises is listed failed with its findings unfixed, and a written file always comes with a changeset; for the "
+    "shared argument editor (the rewrite of the keyword-hardening codemods): after replace_args every argument with the specified keyword "
+    "has the specified value, so a detector that flags the call for that keyword's value no longer flags it (C18_replaceArgs_not_flagged; "
+    "the editor is tied to the real replace_args by the C16 correspondence). These are "
     "the framework half of the property; the semgrep matcher and the transformer bodies are parameters. The per-codemod half is searched "
     "with the real semgrep binary and the codemod's own rule before and after a real run."
 )
@@ -128,6 +133,28 @@ def shift_case(case):
         return {"rc": r["rc"], "before": text, "after": after, "flagged0": bool(flagged0), "flagged1": list(flagged1.values()), "failed": failed, "changed_by": changed_by}
     finally:
         shutil.rmtree(root, ignore_errors=True)
+
+
+def corr(ctx):
+    """the shared argument editor: `replace_args` against the model (argscorr), and what C18_replaceArgs_sets says on the real result -
+    after the edit every argument carrying a specified keyword has the specified value (calls with pairwise different keywords)"""
+    import argscorr
+
+    for rq, im, _ in argscorr.corr(ctx, 150, 1200):
+        if rq["op"] != "replace_args":
+            continue
+        kws = [a["kw"] for a in rq["args"] if a["kw"] is not None]
+        if len(set(kws)) != len(kws):
+            continue
+        for s in rq["spec"]:
+            present = s["name"] in kws
+            ctx.search_case("editor-sets-keyword", {"args": rq["args"], "spec": s}, present)
+            stale = [a for a in im["args"] if a["kw"] == s["name"] and a["val"] != s["value"]]
+            missing = (present or s["add_if_missing"]) and not any(a["kw"] == s["name"] for a in im["args"])
+            if stale or missing:
+                ctx.fail({"kind": "editor-leaves-flagged-value", "missing": bool(missing)},
+                         f"replace_args: after the edit `{s['name']}` is {'absent' if missing else 'still ' + stale[0]['val']} (specified {s['value']}): {im['src']} -> {im['rendered']}",
+                         {"request": rq, "impl": im})
 
 
 def search(ctx):
